@@ -680,6 +680,10 @@ pub fn raft() {
     }
     let mut rep = Reporter::new("C40", args.seed);
     if let Some(case) = args.replay_case() {
+        // a replay descriptor of another stage / another test of this property: not ours, nothing to do
+        if case["engine"].as_str() != Some("hv_sim_b") || case["test"].as_str() != Some("c40_raft") {
+            return;
+        }
         replay(&case, &mut rep);
         rep.finish(RULE, false);
         return;
